@@ -134,6 +134,7 @@ func Explore(cfg Config, body func()) *Report {
 			if it.gen < 2 {
 				mine = cfg.Shard == 0
 			}
+			Progress(nil)
 			e := RunOnce(it.picks, opts, body)
 			if e.Diverge != "" {
 				rep.Errors = append(rep.Errors, "replay of a prefix diverged: "+e.Diverge+" picks="+fmt.Sprint(it.picks))
